@@ -499,10 +499,11 @@ def expr_pairing(ctx):
             ctx.ok(c, fn, entries=len(want))
 
 
-@rule("C18.expr-placeholders", props=["C18", "C12"], min_instances=3, mutants=[
-    ("placeholders created from grades", ("matrixreps", "symbolic_rest = [alg.multivector(name=string.ascii_uppercase[i], keys=mv.keys()) for i, mv in enumerate(rest)]", "symbolic_rest = [alg.multivector(name=string.ascii_uppercase[i], grades=mv.grades) for i, mv in enumerate(rest)]")),
+@rule("C18.expr-placeholders", props=["C18", "C12"], min_instances=6, mutants=[
+    ("placeholders are named A, B, ... whatever x is called", ("matrixreps", "alg.multivector(name=names[i], keys=mv.keys()) for i, mv in enumerate(rest)]", "alg.multivector(name=string.ascii_uppercase[i], keys=mv.keys()) for i, mv in enumerate(rest)]")),
+    ("placeholders created from grades", ("matrixreps", "symbolic_rest = [alg.multivector(name=names[i], keys=mv.keys()) for i, mv in enumerate(rest)]", "symbolic_rest = [alg.multivector(name=names[i], grades=mv.grades) for i, mv in enumerate(rest)]")),
     ("placeholders paired with reversed inputs", ("matrixreps", "for smv, mv in zip(symbolic_rest, rest))))", "for smv, mv in zip(symbolic_rest, reversed(rest)))))")),
-    ("all placeholders share one name", ("matrixreps", "alg.multivector(name=string.ascii_uppercase[i], keys=mv.keys()) for i, mv in enumerate(rest)]", "alg.multivector(name=string.ascii_uppercase[0], keys=mv.keys()) for i, mv in enumerate(rest)]")),
+    ("all placeholders share one name", ("matrixreps", "alg.multivector(name=names[i], keys=mv.keys()) for i, mv in enumerate(rest)]", "alg.multivector(name=names[0], keys=mv.keys()) for i, mv in enumerate(rest)]")),
     ("x is not passed on to the symbolic evaluation", ("matrixreps", "        symbolic_inputs = [*symbolic_rest, x]", "        symbolic_inputs = [*symbolic_rest, symbolic_rest[-1]]")),
 ])
 def expr_placeholders(ctx):
@@ -523,112 +524,120 @@ def expr_placeholders(ctx):
         mv.attrs["issymbolic"] = False
         mv.attrs["shape"] = (len(keys),) + shape2
         return mv
-    rest = [num_mv((6, 5, 3), "B"), num_mv((2, 0), "C")]
-    xsyms = [Obj("symbol", {"fmt": "x1", "name": "x1"}), Obj("symbol", {"fmt": "x2", "name": "x2"}), Obj("symbol", {"fmt": "x4", "name": "x4"})]
-    x = mv_obj(alg, (1, 2, 4), xsyms)
-    x.attrs["issymbolic"] = True
-    x.attrs["shape"] = (3,)
-    made = []
+    scenarios = [("", "x", [((6, 5, 3), "B"), ((2, 0), "C")]),
+                 (",x named like a placeholder", "A", [((2, 1), "B"), ((2, 0), "C")])]
+    for suffix, xname, rest_spec in scenarios:
+        rest = [num_mv(k, t) for k, t in rest_spec]
+        xsyms = [Obj("symbol", {"fmt": f"{xname}{k}", "name": f"{xname}{k}"}) for k in (1, 2, 4)]
+        x = mv_obj(alg, (1, 2, 4), xsyms)
+        x.attrs["issymbolic"] = True
+        x.attrs["shape"] = (3,)
+        x.attrs["free_symbols"] = set(xsyms)
+        made = []
 
-    def multivector(*a, **kw):
-        name = kw.get("name")
-        keys = kw.get("keys")
-        if name is None or a:
-            return Unk("multivector(...)")
-        if keys is None and "grades" in kw:
-            g = tuple(kw["grades"])
-            keys = tuple(alg.attrs["indices_for_grades"][g]) if "indices_for_grades" in alg.attrs else tuple(
-                k for k in alg.attrs["canon2bin"].values() if bin(k).count("1") in g)
-        if keys is None:
-            return Unk("multivector(name=...)")
-        keys = tuple(keys)
-        mv = mv_obj(alg, keys, [Obj("symbol", {"fmt": f"{name}{k}", "name": f"{name}{k}"}) for k in keys])
-        mv.attrs["issymbolic"] = True
-        mv.attrs["shape"] = (len(keys),)
-        made.append((name, keys, mv))
-        return mv
-    alg.methods["multivector"] = multivector
-    rec = {}
-    A_tok = Obj("matrix", {"fmt": "A_symbolic"})
+        def multivector(*a, **kw):
+            name = kw.get("name")
+            keys = kw.get("keys")
+            if name is None or a:
+                return Unk("multivector(...)")
+            if keys is None and "grades" in kw:
+                g = tuple(kw["grades"])
+                keys = tuple(alg.attrs["indices_for_grades"][g]) if "indices_for_grades" in alg.attrs else tuple(
+                    k for k in alg.attrs["canon2bin"].values() if bin(k).count("1") in g)
+            if keys is None:
+                return Unk("multivector(name=...)")
+            keys = tuple(keys)
+            mv = mv_obj(alg, keys, [Obj("symbol", {"fmt": f"{name}{k}", "name": f"{name}{k}"}) for k in keys])
+            mv.attrs["issymbolic"] = True
+            mv.attrs["shape"] = (len(keys),)
+            made.append((name, keys, mv))
+            return mv
+        alg.methods["multivector"] = multivector
+        rec = {}
+        A_tok = Obj("matrix", {"fmt": "A_symbolic"})
 
-    def y_call(*a, **kw):
-        rec["y_kwargs"] = dict(kw)
-        return Obj("mv", {"fmt": "y_numeric"})
-    y_tok = Obj("mv-callable", {"fmt": "y_symbolic"}, call=y_call)
+        def y_call(*a, **kw):
+            rec["y_kwargs"] = dict(kw)
+            return Obj("mv", {"fmt": "y_numeric"})
+        y_tok = Obj("mv-callable", {"fmt": "y_symbolic"}, call=y_call)
 
-    def inner(expr, *inputs, **kw):
-        rec.setdefault("inner", []).append((list(inputs), dict(kw)))
-        return (A_tok, y_tok)
+        def inner(expr, *inputs, **kw):
+            rec.setdefault("inner", []).append((list(inputs), dict(kw)))
+            return (A_tok, y_tok)
 
-    def lambdify(args, body, *a, **kw):
-        rec["lambdify"] = (list(args), body)
+        def lambdify(args, body, *a, **kw):
+            rec["lambdify"] = (list(args), body)
 
-        def func(*fa, **fk):
-            rec["func_kwargs"] = dict(fk)
-            rec["func_args"] = list(fa)
-            return Obj("matrix", {"fmt": "A_numeric"})
-        return Obj("function", {"fmt": "<lambdified A>"}, call=func)
-    it = make_interp(repo)
-    it.algebra = alg
-    it.overrides["matrixreps.expr_as_matrix"] = PyFunc(inner, "expr_as_matrix", True)
-    it.standins["sympy"] = Obj("module:sympy", {"lambdify": PyFunc(lambdify, "sympy.lambdify", True)})
-    res_like = mv_obj(alg, (4, 1), [1, 1])
-    expr = Obj("function", {"fmt": "<expr>"}, call=lambda *a: Unk("expr must be evaluated on the placeholders by the recursive call"))
-    c0 = f"{q}#placeholders"
-    try:
-        # every symbol of the placeholders and of x is free in y
-        y_tok.attrs["free_symbols"] = Obj("free_symbols", {"fmt": "<all symbols>"}, {"__contains__": lambda k: True})
-        out = it.run(q, [expr, rest[0], rest[1], x], {"res_like": res_like})
-    except NoValue as exc:
-        raise Unknown(c0, str(exc), fn)
-    if out[0] == "raise":
-        ctx.violation(c0, f"array-valued numeric inputs: raises {out[1]}", fn)
-        return
-    # 1. placeholders
-    problems = []
-    if [k for _, k, _ in made] != [tuple(mv.attrs["_keys"]) for mv in rest]:
-        problems.append(f"placeholders are created with keys {[k for _, k, _ in made]} for inputs with keys "
-                        f"{[tuple(mv.attrs['_keys']) for mv in rest]} (their symbols are paired position by position with the input's values)")
-    if len({n for n, _, _ in made}) != len(made):
-        problems.append(f"placeholder names {[n for n, _, _ in made]} are not distinct (their symbols collide)")
-    if problems:
-        ctx.violation(c0, "; ".join(problems), fn)
-    else:
-        ctx.ok(c0, fn, placeholders=[(n, k) for n, k, _ in made])
-    # 2. the one symbolic evaluation
-    c1 = f"{q}#symbolic-evaluation"
-    inner_calls = rec.get("inner", [])
-    if len(inner_calls) != 1:
-        ctx.violation(c1, f"the expression is evaluated symbolically {len(inner_calls)} times", fn)
-    else:
-        inputs, kw = inner_calls[0]
-        want_inputs = [mv for _, _, mv in made] + [x]
-        if len(inputs) == len(want_inputs) and all(a is b for a, b in zip(inputs, want_inputs)) and kw.get("res_like") is res_like:
-            ctx.ok(c1, fn, inputs=len(inputs))
+            def func(*fa, **fk):
+                rec["func_kwargs"] = dict(fk)
+                rec["func_args"] = list(fa)
+                return Obj("matrix", {"fmt": "A_numeric"})
+            return Obj("function", {"fmt": "<lambdified A>"}, call=func)
+        it = make_interp(repo)
+        it.algebra = alg
+        it.overrides["matrixreps.expr_as_matrix"] = PyFunc(inner, "expr_as_matrix", True)
+        it.standins["sympy"] = Obj("module:sympy", {"lambdify": PyFunc(lambdify, "sympy.lambdify", True)})
+        res_like = mv_obj(alg, (4, 1), [1, 1])
+        expr = Obj("function", {"fmt": "<expr>"}, call=lambda *a: Unk("expr must be evaluated on the placeholders by the recursive call"))
+        c0 = f"{q}#placeholders{suffix}"
+        try:
+            # every symbol of the placeholders and of x is free in y
+            y_tok.attrs["free_symbols"] = Obj("free_symbols", {"fmt": "<all symbols>"}, {"__contains__": lambda k: True})
+            out = it.run(q, [expr, rest[0], rest[1], x], {"res_like": res_like})
+        except NoValue as exc:
+            raise Unknown(c0, str(exc), fn)
+        if out[0] == "raise":
+            ctx.violation(c0, f"array-valued numeric inputs: raises {out[1]}", fn)
+            continue
+        # 1. placeholders
+        problems = []
+        if [k for _, k, _ in made] != [tuple(mv.attrs["_keys"]) for mv in rest]:
+            problems.append(f"placeholders are created with keys {[k for _, k, _ in made]} for inputs with keys "
+                            f"{[tuple(mv.attrs['_keys']) for mv in rest]} (their symbols are paired position by position with the input's values)")
+        if len({n for n, _, _ in made}) != len(made):
+            problems.append(f"placeholder names {[n for n, _, _ in made]} are not distinct (their symbols collide)")
+        shared = sorted({str(v) for _, _, mv in made for v in mv.attrs["_values"]} & {str(v) for v in xsyms})
+        if shared:
+            problems.append(f"the placeholders share the symbols {shared} with x: the coefficients of x are overwritten by the numeric "
+                            f"values of another input (x may carry any name, also one that starts with a capital letter)")
+        if problems:
+            ctx.violation(c0, "; ".join(problems), fn)
         else:
-            ctx.violation(c1, f"the symbolic evaluation receives {[str(i) for i in inputs]} with res_like={kw.get('res_like')!s}; expected the "
-                              f"placeholders in input order followed by x, and the caller's res_like", fn)
-    # 3. bindings
-    c2 = f"{q}#value-pairing"
-    want = {}
-    for (name, keys, smv), mv in zip(made, rest):
-        if len(keys) == len(mv.attrs["_values"]):
-            for sym, val in zip(smv.attrs["_values"], mv.attrs["_values"]):
-                want[str(sym)] = val
-    got = rec.get("func_kwargs")
-    yk = rec.get("y_kwargs")
-    if got is None or yk is None:
-        raise Unknown(c2, f"the lambdified matrix / y were not called with keyword bindings (A: {got is not None}, y: {yk is not None})", fn)
-    bad = [k for k in set(want) | set(got) if got.get(k) is not want.get(k)]
-    want_y = dict(want)
-    want_y.update({str(s_): s_ for s_ in xsyms})
-    bad_y = [k for k in set(want_y) | set(yk) if yk.get(k) is not want_y.get(k)]
-    if bad:
-        k = sorted(bad)[0]
-        ctx.violation(c2, f"the matrix is evaluated with {k} = {got.get(k)!s}, expected {want.get(k)!s} (placeholder symbol i of input j "
-                          f"must be bound to value i of input j); {len(bad)} binding(s) differ", fn)
-    elif bad_y:
-        k = sorted(bad_y)[0]
-        ctx.violation(c2, f"y is evaluated with {k} = {yk.get(k)!s}, expected {want_y.get(k)!s}; {len(bad_y)} binding(s) differ", fn)
-    else:
-        ctx.ok(c2, fn, bindings=len(want))
+            ctx.ok(c0, fn, placeholders=[(n, k) for n, k, _ in made])
+        # 2. the one symbolic evaluation
+        c1 = f"{q}#symbolic-evaluation{suffix}"
+        inner_calls = rec.get("inner", [])
+        if len(inner_calls) != 1:
+            ctx.violation(c1, f"the expression is evaluated symbolically {len(inner_calls)} times", fn)
+        else:
+            inputs, kw = inner_calls[0]
+            want_inputs = [mv for _, _, mv in made] + [x]
+            if len(inputs) == len(want_inputs) and all(a is b for a, b in zip(inputs, want_inputs)) and kw.get("res_like") is res_like:
+                ctx.ok(c1, fn, inputs=len(inputs))
+            else:
+                ctx.violation(c1, f"the symbolic evaluation receives {[str(i) for i in inputs]} with res_like={kw.get('res_like')!s}; expected the "
+                                  f"placeholders in input order followed by x, and the caller's res_like", fn)
+        # 3. bindings
+        c2 = f"{q}#value-pairing{suffix}"
+        want = {}
+        for (name, keys, smv), mv in zip(made, rest):
+            if len(keys) == len(mv.attrs["_values"]):
+                for sym, val in zip(smv.attrs["_values"], mv.attrs["_values"]):
+                    want[str(sym)] = val
+        got = rec.get("func_kwargs")
+        yk = rec.get("y_kwargs")
+        if got is None or yk is None:
+            raise Unknown(c2, f"the lambdified matrix / y were not called with keyword bindings (A: {got is not None}, y: {yk is not None})", fn)
+        bad = [k for k in set(want) | set(got) if got.get(k) is not want.get(k)]
+        want_y = dict(want)
+        want_y.update({str(s_): s_ for s_ in xsyms})
+        bad_y = [k for k in set(want_y) | set(yk) if yk.get(k) is not want_y.get(k)]
+        if bad:
+            k = sorted(bad)[0]
+            ctx.violation(c2, f"the matrix is evaluated with {k} = {got.get(k)!s}, expected {want.get(k)!s} (placeholder symbol i of input j "
+                              f"must be bound to value i of input j); {len(bad)} binding(s) differ", fn)
+        elif bad_y:
+            k = sorted(bad_y)[0]
+            ctx.violation(c2, f"y is evaluated with {k} = {yk.get(k)!s}, expected {want_y.get(k)!s}; {len(bad_y)} binding(s) differ", fn)
+        else:
+            ctx.ok(c2, fn, bindings=len(want))
